@@ -10,7 +10,7 @@ from ..ctx import engine
 from ..model import AnalysisError, Program
 from ..paths import SymPath, show
 from ..report import Report
-from .common import HANDLE_FAILURE, REASON_EVENT, RUNNERS, SELF, attr, check_enums, emit_info, enum_name, is_emit, runner_paths
+from .common import is_loop_var, HANDLE_FAILURE, REASON_EVENT, RUNNERS, SELF, attr, check_enums, emit_info, enum_name, is_emit, runner_paths
 from .runner_flow import RunnerClient, flag1, run_runners, short_witness
 
 TERMINAL_NO_REASON = {"SUCCESS"}
@@ -173,7 +173,7 @@ def run(rep: Report, prog: Program, tier: str) -> None:
                     a = e.args[-1] if e.args else None
                     a = e.kwargs.get("attempt", a)
                     rep.instance("R14.3", f"{name}|{e.label.split('.')[-1]}@{e.lineno}")
-                    if a is not None and a[0] == "fresh" and a[2] == "attempt":
+                    if is_loop_var(a):
                         rep.ok("R14.3")
                     else:
                         rep.fail("R14.3", f"{name}|attempt-arg|{e.label.split('.')[-1]}", f"{q}: {e.label.split(':')[-1]} receives attempt={show(a)}, expected the loop variable", where=f"{rf.module.relpath}:{e.lineno}", function=q)
